@@ -24,7 +24,7 @@ os.unlink(path)
 stable = base['stable_pass']
 if isinstance(stable, list):
     missing = [t for t in stable if t not in passed]
-    print(f'baseline: {len(stable) - len(missing)}/{len(stable)} stable tests pass; missing={missing[:10]}')
+    print(f'baseline: {len(stable) - len(missing)}/{len(stable)} stable tests pass; missing_modules={sorted(set(m.split("::")[0] for m in missing))} missing={missing[:40]}')
     sys.exit(1 if missing else 0)
 print(f'baseline: {len(passed)} passed (expected {stable})')
 sys.exit(0 if len(passed) >= int(stable) else 1)
